@@ -168,7 +168,7 @@ def replay_schedule(hbin, schedule, base, free_tail_seed=None):
 
 
 def generate(tmp, name, procs, crashes, num, depth, seed):
-    cfg = (f"SPECIFICATION GSpec\nCONSTANTS\n  Procs <- {procs}\n  Protocol = \"flock\"\n  InitFiles <- AllInit\n  MaxCrashes = {crashes}\n  MaxIno = 8\n"
+    cfg = (f"SPECIFICATION GSpec\nCONSTANTS\n  Procs <- {procs}\n  Protocol = \"flock\"\n  InitFiles <- AllInit\n  MaxCrashes = {crashes}\n  MaxIno = 8\n  AllowClean = FALSE\n"
            "  Goal = \"none\"\nINVARIANTS Emit\nCHECK_DEADLOCK FALSE\n")
     res = core.tlc(os.path.join(tmp, "gen_" + name), "LockerGen.tla", "g.cfg", workers=1, timeout=900, files={"g.cfg": cfg},
                    extra=["-simulate", f"num={num}", "-depth", str(depth), "-seed", str(seed)], heap="4g")
@@ -187,7 +187,7 @@ GOALS = ["verify-fails", "verify-sees-other-file", "flock-blocked", "acquire-aft
 
 def goal_schedule(tmp, goal, procs, crashes, init):
     """The shortest schedule (TLC breadth-first) whose last step takes the named branch of the protocol."""
-    cfg = (f"SPECIFICATION GSpec\nCONSTANTS\n  Procs <- {procs}\n  Protocol = \"flock\"\n  InitFiles = {{\"{init}\"}}\n  MaxCrashes = {crashes}\n  MaxIno = 8\n"
+    cfg = (f"SPECIFICATION GSpec\nCONSTANTS\n  Procs <- {procs}\n  Protocol = \"flock\"\n  InitFiles = {{\"{init}\"}}\n  MaxCrashes = {crashes}\n  MaxIno = 8\n  AllowClean = FALSE\n"
            f"  Goal = \"{goal}\"\nINVARIANTS GoalInv\nCONSTRAINT GoalBound\nCHECK_DEADLOCK FALSE\n")
     res = core.tlc(os.path.join(tmp, f"goal_{goal}_{procs}_{init}"), "LockerGen.tla", "g.cfg", workers=1, timeout=600, files={"g.cfg": cfg}, heap="8g")
     for line in res.out.splitlines():
@@ -205,14 +205,21 @@ def finish_freely(hbin, prefix, base, seed):
 def run(chk, tmp, replay=None):
     quick = chk.tier == "quick"
     for name, procs, crashes in (("2 processes", "P2", 2), ("3 processes", "P3", 2 if quick else 3)):
-        cfg = f"SPECIFICATION Spec\nCONSTANTS\n  Procs <- {procs}\n  Protocol = \"flock\"\n  InitFiles <- AllInit\n  MaxCrashes = {crashes}\n  MaxIno = 8\nINVARIANTS Mutex NoForeignUnlink HolderOwnsPath\n"
+        cfg = f"SPECIFICATION Spec\nCONSTANTS\n  Procs <- {procs}\n  Protocol = \"flock\"\n  InitFiles <- AllInit\n  MaxCrashes = {crashes}\n  MaxIno = 8\n  AllowClean = FALSE\nINVARIANTS Mutex NoForeignUnlink HolderOwnsPath\n"
         res = core.tlc(os.path.join(tmp, "ex_" + procs), "LockerMC.tla", "l.cfg", timeout=1500, files={"l.cfg": cfg}, heap="16g")
         core.tlc_must_pass(res, "Locker " + name)
         chk.add_tlc(f"Locker exhaustive, {name}, <= {crashes} crashes, every initial lock file, every interleaving of file-system steps: Mutex, NoForeignUnlink, HolderOwnsPath", res)
-    cfg = "SPECIFICATION FairSpec\nCONSTANTS\n  Procs <- P2\n  Protocol = \"flock\"\n  InitFiles <- AllInit\n  MaxCrashes = 1\n  MaxIno = 8\nPROPERTIES AllFinish\n"
+    cfg = "SPECIFICATION FairSpec\nCONSTANTS\n  Procs <- P2\n  Protocol = \"flock\"\n  InitFiles <- AllInit\n  MaxCrashes = 1\n  MaxIno = 8\n  AllowClean = FALSE\nPROPERTIES AllFinish\n"
     res = core.tlc(os.path.join(tmp, "ex_live"), "LockerMC.tla", "l.cfg", timeout=1500, files={"l.cfg": cfg}, heap="8g")
     core.tlc_must_pass(res, "Locker liveness")
     chk.add_tlc("Locker liveness (2 processes, 1 crash): a waiter proceeds once the holder releases or dies, a stale file never blocks (AllFinish under weak fairness)", res)
+    if not quick:
+        # beyond the listed property: `grog clean` removes the lock file under a holder without taking the lock; TLC shows that
+        # mutual exclusion between builds is then lost (recorded as an observation of the extended specification, not a verdict)
+        cfg = "SPECIFICATION Spec\nCONSTANTS\n  Procs <- P2\n  Protocol = \"flock\"\n  InitFiles = {\"nofile\"}\n  MaxCrashes = 0\n  MaxIno = 8\n  AllowClean = TRUE\nINVARIANTS Mutex\n"
+        res = core.tlc(os.path.join(tmp, "ex_clean"), "LockerMC.tla", "l.cfg", timeout=600, files={"l.cfg": cfg})
+        chk.cov["observation_grog_clean_under_a_holder"] = {"mutex_violated_in_model": "Mutex" in res.violated, "distinct_states": res.distinct,
+                                                             "note": "outside C10 (which speaks of builds): a concurrent `grog clean` lets a second build acquire a fresh lock file"}
     hbin = core.build_harness(tmp)
     batches = [("2p", "P2", 1, 60 if quick else 600, 70), ("3p", "P3", 2, 40 if quick else 600, 110)]
     chk.cov["rule"] = ("one evaluation = one TLC-generated schedule (which process performs its next file-system call, or is killed) stepped through real OS processes; "
